@@ -3,6 +3,8 @@ package values
 import (
 	"cmp"
 	"reflect"
+
+	yaml "gopkg.in/yaml.v2"
 )
 
 var float64Type = reflect.TypeOf(float64(0))
@@ -36,6 +38,13 @@ func Equal(a, b any) bool { //nolint: gocyclo
 		return ra.String() == rb.String()
 	case reflect.Map:
 		return equalMaps(ra, rb)
+	case reflect.Struct:
+		// the items of a yaml.MapSlice
+		if ia, ok := a.(yaml.MapItem); ok {
+			ib, ok := b.(yaml.MapItem)
+			return ok && Equal(ia.Key, ib.Key) && Equal(ia.Value, ib.Value)
+		}
+		return safeEqual(a, b)
 	case reflect.Ptr:
 		if rb.Kind() == reflect.Ptr && (ra.IsNil() || rb.IsNil()) {
 			return ra.IsNil() == rb.IsNil()
